@@ -184,6 +184,14 @@ func c18Tags(c *core.Ctx, lo, hi int) {
 			idxs = append(idxs, 1<<uint(k)-1, 1<<uint(k), 1<<uint(k)+1)
 		}
 	}
+	// beyond the dense range: every 61st and every 8191st index, so that the inside of every tag
+	// length class is visited, not only its edges
+	for i := lo; i < hi; i++ {
+		idxs = append(idxs, i*61+17)
+		if j := i*8191 + 5; j < 1<<28 {
+			idxs = append(idxs, j)
+		}
+	}
 	for _, idx := range idxs {
 		for wt := plenccore.WTVarInt; wt <= plenccore.WT32; wt++ {
 			b := plenccore.AppendTag([]byte{0x7}, wt, idx)
@@ -197,6 +205,15 @@ func c18Tags(c *core.Ctx, lo, hi int) {
 			gwt, gidx, gn := plenccore.ReadTag(b[1:])
 			if gwt != wt || gidx != idx || gn != len(b)-1 {
 				c.Rec.Violation("tag-read", fmt.Sprintf("ReadTag(%x) = (wt %d, index %d, n %d) want (%d,%d,%d)", b[1:], gwt, gidx, gn, wt, idx, len(b)-1), nil)
+			}
+			// a tag is followed by its field: the same tag with 1, 3 and 9 more bytes behind it
+			for _, tail := range [][]byte{{0x00}, {0xff, 0x01, 0x80}, {0x80, 0x80, 0x80, 0x80, 0x80, 0x80, 0x80, 0x80, 0x01}} {
+				in := append(append([]byte(nil), b[1:]...), tail...)
+				gwt, gidx, gn := plenccore.ReadTag(in)
+				if gwt != wt || gidx != idx || gn != len(b)-1 {
+					c.Rec.Violation("tag-read", fmt.Sprintf("ReadTag(%x) (a tag followed by %d more bytes) = (wt %d, index %d, n %d) want (%d,%d,%d)", in, len(tail), gwt, gidx, gn, wt, idx, len(b)-1), nil)
+					break
+				}
 			}
 			if wt <= 2 || wt == 5 {
 				num, typ, n := protowire.ConsumeTag(b[1:])
@@ -384,7 +401,7 @@ func init() {
 		ID:        "C18",
 		Technique: "differential monitor of the plenccore primitives against an independent varint/zig-zag reference and protowire, over boundary-exhaustive and seeded random values",
 		Rule: "values: every 2^k+d (d in -2..2), its negation, complement and zig-zag images; seeded random 64-bit values of every bit length; thorough additionally ALL 2^32 32-bit values and their <<32 and negated images. " +
-			"boundary values are appended to destinations with 0-3 content bytes x 0-11 spare bytes. tags: all wire types x a dense index range + boundaries to 2^28. Skip: model-built fields of every wire type with trailing bytes, every truncation class, and random hostile byte strings for all 8 wire-type codes. " +
+			"boundary values are appended to destinations with 0-3 content bytes x 0-11 spare bytes. tags: all wire types x a dense index range, every 61st and 8191st index beyond it and the boundaries to 2^28, each read back from an exact buffer and followed by 1, 3 and 9 more bytes. Skip: model-built fields of every wire type with trailing bytes, every truncation class, and random hostile byte strings for all 8 wire-type codes. " +
 			"distinct_nontrivial counts distinct values / fields checked outside the dense sweeps (a value is non-trivial if it needs more than one byte or a field has non-zero length)",
 		Assume:     []string{"encoding/binary.Uvarint semantics (plenccore.ReadVarUint delegates to it)", "protowire v1.26.0 as second reference"},
 		Exhaustive: []string{"thorough tier: all 2^32 uint32 values through append/size/read/zig-zag"},
